@@ -304,7 +304,9 @@ def oracle(case, obs):
                 return 'track %d observation %d %r is matched to %r on edge %d, %.6g away: farther than the search radius %r' % (ti, k, o, p, e, math.hypot(o[0] - p[0], o[1] - p[1]), R)
             if abs(d0 + d1 - L) > 1e-6 * (1 + L):
                 return 'track %d observation %d: distances to the end nodes %r + %r do not add up to the length %r of edge %d' % (ti, k, d0, d1, L, e)
-            if abs(d0 - sp) > 1e-6 * (1 + L) and not any(abs(math.hypot(p[0] - v[0], p[1] - v[1])) < 1e-9 for v in geom[1:-1]) :
+            at_closure = geom[0] == geom[-1] and math.hypot(p[0] - geom[0][0], p[1] - geom[0][1]) < 1e-9 and (abs(d0) <= 1e-6 * (1 + L) or abs(d0 - L) <= 1e-6 * (1 + L))
+            # (the closing vertex of a loop edge is at abscissa 0 and at abscissa L: either is the distance to the source along the edge)
+            if abs(d0 - sp) > 1e-6 * (1 + L) and not at_closure and not any(abs(math.hypot(p[0] - v[0], p[1] - v[1])) < 1e-9 for v in geom[1:-1]) :
                 return 'track %d observation %d: distance to the source %r, measured along edge %d it is %r' % (ti, k, d0, e, sp)
     return None
 
